@@ -13,7 +13,7 @@ package zipslicer
 //@   property C11
 //@   nopanic
 //@   ensures @directory_present_on_success ret1 == nil ==> ret0 != nil
-//@   ensures @directory_lies_within_the_file ret1 == nil && size >= 0 ==> ret0.Size == size && ret0.DirLoc <= size
+//@   ensures @directory_lies_within_the_file ret1 == nil && size >= 0 ==> ret0.Size == size && 0 <= ret0.DirLoc && ret0.DirLoc <= size
 //@   requires r != nil
 //@   allocbound 0 size + 65536
 //@
@@ -21,7 +21,7 @@ package zipslicer
 //@   property C11 C17
 //@   nopanic
 //@   ensures @directory_present_on_success ret1 == nil ==> ret0 != nil
-//@   ensures @directory_lies_within_the_file ret1 == nil && size >= 0 ==> ret0.Size == size && ret0.DirLoc <= size
+//@   ensures @directory_lies_within_the_file ret1 == nil && size >= 0 ==> ret0.Size == size && 0 <= ret0.DirLoc && ret0.DirLoc <= size
 //@   allocbound 0 262144
 //@   loop 1 sig "for len(extra) >= 4" invariant len(extra) <= 65535
 //@   loop 1 exit @extra_field_walk_ends_only_at_the_zip64_field_at_an_overrunning_field_or_with_less_than_a_header_left \
